@@ -514,3 +514,333 @@ Section NoisyBlock.
     - left. fold bins. rewrite (n_flat i d0 Hi). apply (y_bin_flat hap base build _ Hym).
   Qed.
 End NoisyBlock.
+
+(* ---- the statements of Props/C05.v ---------------------------------------------------------------------------- *)
+Lemma Qmax2_ge_l a b : a <= Qmax2 a b.
+Proof. unfold Qmax2. destruct (Qle_bool a b) eqn:E; [apply Qle_bool_iff in E; exact E|apply Qle_refl]. Qed.
+Lemma Qmax2_ge_r a b : b <= Qmax2 a b.
+Proof.
+  unfold Qmax2. destruct (Qle_bool a b) eqn:E; [apply Qle_refl|].
+  destruct (Qlt_le_dec b a) as [H|H]; [apply Qlt_le_weak; exact H|]. apply Qle_bool_iff in H. congruence.
+Qed.
+
+Lemma radius_sq_eq eps : spread_K_radius * ((2 * eps) * (2 * eps)) == spread_K * (eps * eps).
+Proof. unfold spread_K_radius, spread_K. ring. Qed.
+
+(* no low-coverage bin where the centring would drop it (target files; antitarget files keep them) *)
+Definition no_low (skip : bool) (base : list bin) (files : list sample) : Prop :=
+  skip = true ->
+  (forall b, In b base -> is_low b = false) /\
+  (forall s, In s files -> forall b, In b (s_bins s) -> is_low b = false).
+
+Section Statements.
+  Variables (hap : bool) (build : option parb) (sexes : list (string * bool)) (skip : bool).
+  Variables (files : list sample) (base : list bin) (eps : Q).
+  Hypothesis Hfiles : files <> [].
+  Hypothesis Hauto : existsb is_auto_bin base = true.
+  Hypothesis Hlow : no_low skip base files.
+
+  Let col i := block_column hap build sexes skip files i.
+  Let sval i s := sample_value hap build sexes skip (block_bins files) i s.
+
+  (* 0 <= eps as soon as some value is within 2 eps of something *)
+  Lemma eps_nonneg_of i v : (forall s, In s files -> Qabs (sval i s - v) <= 2 * eps) -> 0 <= eps.
+  Proof.
+    intros H. destruct files as [|s t]; [congruence|].
+    pose proof (H s (or_introl eq_refl)) as Hs. pose proof (Qabs_nonneg (sval i s - v)). lra.
+  Qed.
+
+  (* 1. autosomal bins (and PAR-X with a build): the bins the centre is taken over *)
+  Theorem bounded_noise_auto :
+    (forall s, In s files -> exists d, noisy_like build base eps s d) ->
+    forall i d0, (i < length base)%nat -> auto_sel base build (nth i base d0) = true ->
+    exists c, center_shift median true skip build base = Some c /\
+      let b := nth i base d0 in
+      let fl := flat_at hap build base b in
+      let v := b_log2 b + c + fl in
+      let R := noise_radius eps fl v in
+      fl == 0 /\
+      (forall s, In s files -> Qabs (sval i s - v) <= 2 * eps) /\
+      Qabs (consensus_log2 (col i) - v) <= R /\
+      consensus_spread_sq (col i) <= spread_K_radius * (R * R) /\
+      (b_log2 b + c == 0 ->
+         Qabs (consensus_log2 (col i) - v) <= 2 * eps /\
+         consensus_spread_sq (col i) <= spread_K * (eps * eps)).
+  Proof.
+    intros Hnoisy i d0 Hi Hsel.
+    destruct (noise_autosomal hap build sexes skip files Hfiles base Hauto eps Hnoisy Hlow i d0 Hi Hsel)
+      as (c & Hc & Hfl & Hv & Hr).
+    exists c. split; [exact Hc|]. intros b fl v R. fold b fl v in Hfl, Hv, Hr.
+    split; [exact Hfl|]. split; [exact Hv|].
+    destruct (Hr R (Qmax2_ge_l _ _) (Qmax2_ge_r _ _)) as (H1 & H2).
+    split; [exact H1|]. split; [exact H2|]. intros Ha.
+    assert (He : 0 <= eps) by (apply (eps_nonneg_of i v); exact Hv).
+    assert (Hz : Qabs (fl - v) <= 2 * eps).
+    { assert (E : fl - v == 0) by (unfold v; rewrite Ha; ring). rewrite E. cbn. lra. }
+    destruct (Hr (2 * eps) (Qle_refl _) Hz) as (H3 & H4). split; [exact H3|].
+    rewrite <- radius_sq_eq. exact H4.
+  Qed.
+
+  Hypothesis Hsexed : forall s, In s files -> exists d, noisy_like build base eps s d /\ sexed_near build sexes base eps s d.
+
+  Lemma sexed_noisy : forall s, In s files -> exists d, noisy_like build base eps s d.
+  Proof. intros s Hs. destruct (Hsexed s Hs) as (d & H & _). exists d. exact H. Qed.
+
+  (* 3a. X bins: -1 (male reference) / 0 (female reference) relative to the bin's baseline a *)
+  Theorem bounded_noise_x :
+    forall i d0, (i < length base)%nat -> chr_x_filter base build (nth i base d0) = true ->
+    exists c, center_shift median true skip build base = Some c /\
+      let a := b_log2 (nth i base d0) + c in
+      let v := a + (if hap then -1 else 0) in
+      let R := Qmax2 (2 * eps) (Qabs a) in
+      (forall s, In s files -> Qabs (sval i s - v) <= 2 * eps) /\
+      Qabs (consensus_log2 (col i) - v) <= R /\
+      consensus_spread_sq (col i) <= spread_K_radius * (R * R) /\
+      (a == 0 ->
+         Qabs (consensus_log2 (col i) - (if hap then -1 else 0)) <= 2 * eps /\
+         consensus_spread_sq (col i) <= spread_K * (eps * eps)).
+  Proof.
+    intros i d0 Hi Hxm.
+    destruct (noise_sex_x hap build sexes skip files Hfiles base Hauto eps sexed_noisy Hlow Hsexed i d0 Hi Hxm)
+      as (c & Hc & Hv & Hr).
+    exists c. split; [exact Hc|]. intros a v R. fold a v in Hv, Hr.
+    split; [exact Hv|].
+    destruct (Hr R (Qmax2_ge_l _ _) (Qmax2_ge_r _ _)) as (H1 & H2).
+    split; [exact H1|]. split; [exact H2|]. intros Ha.
+    assert (He : 0 <= eps) by (apply (eps_nonneg_of i v); exact Hv).
+    assert (Hz : Qabs a <= 2 * eps) by (rewrite Ha; cbn; lra).
+    destruct (Hr (2 * eps) (Qle_refl _) Hz) as (H3 & H4). split.
+    - assert (E : (if hap then -1 else 0) == v) by (unfold v; rewrite Ha; ring).
+      apply (Qabs_le_eq_r _ _ _ _ E). exact H3.
+    - rewrite <- radius_sq_eq. exact H4.
+  Qed.
+
+  (* 3b. Y bins of an all-male block: one copy below the bin's baseline a *)
+  Theorem bounded_noise_y_males :
+    (forall s, In s files -> sample_is_xx sexes (s_id s) = false) ->
+    forall i d0, (i < length base)%nat -> chr_y_filter base build (nth i base d0) = true ->
+    exists c, center_shift median true skip build base = Some c /\
+      let a := b_log2 (nth i base d0) + c in
+      let v := a - 1 in
+      let R := Qmax2 (2 * eps) (Qabs a) in
+      (forall s, In s files -> Qabs (sval i s - v) <= 2 * eps) /\
+      Qabs (consensus_log2 (col i) - v) <= R /\
+      consensus_spread_sq (col i) <= spread_K_radius * (R * R) /\
+      (a == 0 ->
+         Qabs (consensus_log2 (col i) - -1) <= 2 * eps /\
+         consensus_spread_sq (col i) <= spread_K * (eps * eps)).
+  Proof.
+    intros Hmale i d0 Hi Hym.
+    destruct (noise_sex_y_males hap build sexes skip files Hfiles base Hauto eps sexed_noisy Hlow Hsexed i d0 Hmale Hi Hym)
+      as (c & Hc & Hv & Hr).
+    exists c. split; [exact Hc|]. intros a v R. fold a v in Hv, Hr.
+    split; [exact Hv|].
+    destruct (Hr R (Qmax2_ge_l _ _) (Qmax2_ge_r _ _)) as (H1 & H2).
+    split; [exact H1|]. split; [exact H2|]. intros Ha.
+    assert (He : 0 <= eps) by (apply (eps_nonneg_of i v); exact Hv).
+    assert (Hz : Qabs a <= 2 * eps) by (rewrite Ha; cbn; lra).
+    destruct (Hr (2 * eps) (Qle_refl _) Hz) as (H3 & H4). split.
+    - assert (E : -1 == v) by (unfold v; rewrite Ha; ring).
+      apply (Qabs_le_eq_r _ _ _ _ E). exact H3.
+    - rewrite <- radius_sq_eq. exact H4.
+  Qed.
+
+  (* 3c. Y bins, any male / female mix, baseline at the autosomal centre *)
+  Theorem bounded_noise_y_mixed :
+    0 <= eps ->
+    forall i d0, (i < length base)%nat -> chr_y_filter base build (nth i base d0) = true ->
+    exists c, center_shift median true skip build base = Some c /\
+      (b_log2 (nth i base d0) + c == 0 ->
+       (forall s, In s files -> Qabs (sval i s - -1) <= 2 * eps) /\
+       Qabs (consensus_log2 (col i) - -1) <= 2 * eps /\
+       consensus_spread_sq (col i) <= spread_K * (eps * eps)).
+  Proof.
+    intros He i d0 Hi Hym.
+    exact (noise_sex_y hap build sexes skip files Hfiles base Hauto eps sexed_noisy Hlow Hsexed i d0 He Hi Hym).
+  Qed.
+
+  (* 3d. Y bins of an all-female block: exactly -1, spread 0 *)
+  Theorem bounded_noise_y_females :
+    (forall s, In s files -> sample_is_xx sexes (s_id s) = true) ->
+    forall i d0, (i < length base)%nat -> chr_y_filter base build (nth i base d0) = true ->
+    consensus_log2 (col i) == -1 /\ consensus_spread_sq (col i) == 0.
+  Proof.
+    intros Hfem i d0 Hi Hym.
+    exact (noise_sex_y_females hap build sexes skip files Hfiles base Hauto eps sexed_noisy Hlow Hsexed i d0 Hfem Hi Hym).
+  Qed.
+End Statements.
+
+(* ---- the property's tolerance 0.15 ------------------------------------------------------------------------------- *)
+Lemma tolerance_radius eps : eps <= tolerance_eps -> 2 * eps <= tolerance.
+Proof. unfold tolerance_eps, tolerance. intros H. lra. Qed.
+
+(* spread^2 <= 0.15^2 needs, with the constant proved here, eps <= 1/422 *)
+Lemma tolerance_spread eps : 0 <= eps -> eps <= 1 # 422 -> spread_K * (eps * eps) <= tolerance * tolerance.
+Proof. unfold spread_K, tolerance. intros H0 H1. nra. Qed.
+
+Lemma Qmax2_wd' a a' b b' : a == a' -> b == b' -> Qmax2 a b == Qmax2 a' b'.
+Proof. exact (Qmax2_spec a b a' b'). Qed.
+
+(* the spread clause alone, constants written out *)
+Theorem bounded_noise_spread hap build sexes skip files base eps :
+  files <> [] -> existsb is_auto_bin base = true -> no_low skip base files ->
+  (forall s, In s files -> exists d, noisy_like build base eps s d) ->
+  forall i d0, (i < length base)%nat -> auto_sel base build (nth i base d0) = true ->
+  exists c, center_shift median true skip build base = Some c /\
+    let a := b_log2 (nth i base d0) + c in
+    consensus_spread_sq (block_column hap build sexes skip files i)
+      <= 997 * (Qmax2 (2 * eps) (Qabs a) * Qmax2 (2 * eps) (Qabs a)) /\
+    (a == 0 -> consensus_spread_sq (block_column hap build sexes skip files i) <= 3988 * (eps * eps)).
+Proof.
+  intros Hf Ha Hl Hn i d0 Hi Hs.
+  destruct (bounded_noise_auto hap build sexes skip files base eps Hf Ha Hl Hn i d0 Hi Hs) as (c & Hc & H).
+  exists c. split; [exact Hc|]. cbv zeta in H. destruct H as (_ & _ & _ & Hsp & H0). intros a. split.
+  - set (fl := flat_at hap build base (nth i base d0)) in *.
+    assert (E : noise_radius eps fl (b_log2 (nth i base d0) + c + fl) == Qmax2 (2 * eps) (Qabs a)).
+    { unfold noise_radius. apply Qmax2_wd'; [reflexivity|].
+      setoid_replace (fl - (b_log2 (nth i base d0) + c + fl)) with (- a) by (unfold a; ring). apply Qabs_opp. }
+    unfold spread_K_radius in Hsp. rewrite E in Hsp. exact Hsp.
+  - intros Ha0. exact (proj2 (H0 Ha0)).
+Qed.
+
+Theorem bounded_noise_auto_tolerance hap build sexes skip files base eps :
+  files <> [] -> existsb is_auto_bin base = true -> no_low skip base files ->
+  (forall s, In s files -> exists d, noisy_like build base eps s d) ->
+  eps <= 75 # 1000 ->
+  forall i d0, (i < length base)%nat -> auto_sel base build (nth i base d0) = true ->
+  exists c, center_shift median true skip build base = Some c /\
+    (b_log2 (nth i base d0) + c == 0 ->
+     Qabs (consensus_log2 (block_column hap build sexes skip files i)
+           - (b_log2 (nth i base d0) + c + flat_at hap build base (nth i base d0))) <= 15 # 100).
+Proof.
+  intros Hf Ha Hl Hn He i d0 Hi Hs.
+  destruct (bounded_noise_auto hap build sexes skip files base eps Hf Ha Hl Hn i d0 Hi Hs) as (c & Hc & H).
+  exists c. split; [exact Hc|]. cbv zeta in H. destruct H as (_ & _ & _ & _ & H0). intros Ha0.
+  eapply Qle_trans; [exact (proj1 (H0 Ha0))|]. lra.
+Qed.
+
+Theorem bounded_noise_x_tolerance (hap : bool) build sexes skip files base eps :
+  files <> [] -> existsb is_auto_bin base = true -> no_low skip base files ->
+  (forall s, In s files -> exists d, noisy_like build base eps s d /\ sexed_near build sexes base eps s d) ->
+  eps <= 75 # 1000 ->
+  forall i d0, (i < length base)%nat -> chr_x_filter base build (nth i base d0) = true ->
+  exists c, center_shift median true skip build base = Some c /\
+    (b_log2 (nth i base d0) + c == 0 ->
+     Qabs (consensus_log2 (block_column hap build sexes skip files i) - (if hap then -1 else 0)) <= 15 # 100).
+Proof.
+  intros Hf Ha Hl Hn He i d0 Hi Hx.
+  destruct (bounded_noise_x hap build sexes skip files base eps Hf Ha Hl Hn i d0 Hi Hx) as (c & Hc & H).
+  exists c. split; [exact Hc|]. cbv zeta in H. destruct H as (_ & _ & _ & H0). intros Ha0.
+  eapply Qle_trans; [exact (proj1 (H0 Ha0))|]. lra.
+Qed.
+
+(* ---- the hypotheses are satisfiable with eps > 0: a female and two males, eps = 1/16 ------------------------------ *)
+(* profile: chr1 0, 1/4; chr2 0; chr3 -1/4; X 0; Y 0 -- per-chromosome medians 1/8, 0, -1/4, centre 0.
+   depth constants 0, 1, -1/2; every value moved by at most 1/16 *)
+Definition nz_bins (v1 v2 v3 v4 vx vy : Q) : list bin :=
+  [mkBin "chr1" 0 100 "A" v1 (Some 1) None; mkBin "chr1" 200 300 "A" v2 (Some 1) None;
+   mkBin "chr2" 0 100 "B" v3 (Some 1) None; mkBin "chr3" 0 100 "C" v4 (Some 1) None;
+   mkBin "chrX" 0 100 "GX" vx (Some 1) None; mkBin "chrY" 0 100 "GY" vy (Some 1) None].
+Definition nz_base : list bin := nz_bins 0 (1 # 4) 0 (-1 # 4) 0 0.
+Definition nz_a : sample :=        (* female, d = 0 *)
+  mkSample "a" (nz_bins (1 # 16) (3 # 16) (1 # 32) (-5 # 16) (1 # 16) (-7)) [1; 1; 1; 1; 1; 1].
+Definition nz_b : sample :=        (* male, d = 1 *)
+  mkSample "b" (nz_bins (15 # 16) (21 # 16) (31 # 32) (13 # 16) (1 # 16) (-1 # 16)) [1; 1; 1; 1; 1; 1].
+Definition nz_c : sample :=        (* male, d = -1/2 *)
+  mkSample "c" (nz_bins (-15 # 32) (-3 # 16) (-9 # 16) (-3 # 4) (-25 # 16) (-23 # 16)) [1; 1; 1; 1; 1; 1].
+Definition nz_files : list sample := [nz_b; nz_a; nz_c].
+Definition nz_sexes : list (string * bool) := [("a"%string, true); ("b"%string, false); ("c"%string, false)].
+Definition nz_eps : Q := 1 # 16.
+
+Ltac nz_bin :=
+  split; [reflexivity|split; [reflexivity|split; [reflexivity|
+    let H := fresh in intros H;
+    first [apply Qle_bool_iff; vm_compute; reflexivity | vm_compute in H; discriminate H]]]].
+Ltac nz_sexbin :=
+  split;
+    [let H := fresh in
+     intros H; first [apply Qle_bool_iff; vm_compute; reflexivity | vm_compute in H; discriminate H]
+    |let H := fresh in let H' := fresh in
+     intros H H'; first [apply Qle_bool_iff; vm_compute; reflexivity | vm_compute in H; discriminate H
+                         | vm_compute in H'; discriminate H']].
+
+Lemma nz_hypotheses :
+  nz_files <> [] /\ existsb is_auto_bin nz_base = true /\ no_low true nz_base nz_files /\ 0 < nz_eps /\
+  center_shift median true true None nz_base = Some 0 /\
+  (forall s, In s nz_files ->
+     exists d, noisy_like None nz_base nz_eps s d /\ sexed_near None nz_sexes nz_base nz_eps s d).
+Proof.
+  split; [discriminate|]. split; [reflexivity|]. split.
+  { intros _. split.
+    - intros b [<-|[<-|[<-|[<-|[<-|[<-|[]]]]]]]; reflexivity.
+    - intros s [<-|[<-|[<-|[]]]] b [<-|[<-|[<-|[<-|[<-|[<-|[]]]]]]]; reflexivity. }
+  split; [reflexivity|]. split; [vm_compute; reflexivity|].
+  intros s [<-|[<-|[<-|[]]]].
+  - exists 1. split; [unfold noisy_like|unfold sexed_near]; repeat (constructor; [first [nz_bin|nz_sexbin]|]); constructor.
+  - exists 0. split; [unfold noisy_like|unfold sexed_near]; repeat (constructor; [first [nz_bin|nz_sexbin]|]); constructor.
+  - exists (-1 # 2). split; [unfold noisy_like|unfold sexed_near]; repeat (constructor; [first [nz_bin|nz_sexbin]|]); constructor.
+Qed.
+
+(* ---- the bounds are not vacuous: a second cohort whose exact reference is cheap to compute ----------------------- *)
+(* (Exact rational evaluation of the location iteration explodes once it takes more than one step, so the noise
+   of this cohort is arranged to make every column symmetric about its median: the iteration then stops at once.)
+   Flat profile 0, eps = 1/16, males m1 (d = 1), m2 (d = -1/2), female f (d = 0); noise per chromosome
+   (+n, 0, -n) with n = 1/64, 3/64, 1/16 on chr1 and 1/32, 1/32, 1/16 on chr2; X +1/64, +3/64, +1/16;
+   Y of the males +1/16.  Columns, e.g. chr1 first bin: 0 (flat), 1/64, 3/64, 1/16 -> reference 1/32. *)
+Definition sy_bins (a1 a2 a3 b1 b2 b3 vx vy : Q) : list bin :=
+  [mkBin "chr1" 0 100 "A" a1 (Some 1) None; mkBin "chr1" 200 300 "A" a2 (Some 1) None;
+   mkBin "chr1" 400 500 "A" a3 (Some 1) None;
+   mkBin "chr2" 0 100 "B" b1 (Some 1) None; mkBin "chr2" 200 300 "B" b2 (Some 1) None;
+   mkBin "chr2" 400 500 "B" b3 (Some 1) None;
+   mkBin "chrX" 0 100 "GX" vx (Some 1) None; mkBin "chrY" 0 100 "GY" vy (Some 1) None].
+Definition sy_base : list bin := sy_bins 0 0 0 0 0 0 0 0.
+Definition sy_m1 : sample :=
+  mkSample "m1" (sy_bins (65 # 64) 1 (63 # 64) (33 # 32) 1 (31 # 32) (1 # 64) (1 # 16)) [1; 1; 1; 1; 1; 1; 1; 1].
+Definition sy_m2 : sample :=
+  mkSample "m2" (sy_bins (-29 # 64) (-1 # 2) (-35 # 64) (-15 # 32) (-1 # 2) (-17 # 32) (-93 # 64) (-23 # 16))
+           [1; 1; 1; 1; 1; 1; 1; 1].
+Definition sy_f : sample :=
+  mkSample "f" (sy_bins (1 # 16) 0 (-1 # 16) (1 # 16) 0 (-1 # 16) (1 # 16) (-7)) [1; 1; 1; 1; 1; 1; 1; 1].
+Definition sy_files : list sample := [sy_m2; sy_f; sy_m1].
+Definition sy_sexes : list (string * bool) := [("f"%string, true); ("m1"%string, false); ("m2"%string, false)].
+
+Lemma sy_hypotheses :
+  sy_files <> [] /\ existsb is_auto_bin sy_base = true /\ no_low true sy_base sy_files /\
+  center_shift median true true None sy_base = Some 0 /\
+  (forall s, In s sy_files ->
+     exists d, noisy_like None sy_base nz_eps s d /\ sexed_near None sy_sexes sy_base nz_eps s d).
+Proof.
+  split; [discriminate|]. split; [reflexivity|]. split.
+  { intros _. split.
+    - intros b [<-|[<-|[<-|[<-|[<-|[<-|[<-|[<-|[]]]]]]]]]; reflexivity.
+    - intros s [<-|[<-|[<-|[]]]] b [<-|[<-|[<-|[<-|[<-|[<-|[<-|[<-|[]]]]]]]]]; reflexivity. }
+  split; [vm_compute; reflexivity|].
+  intros s [<-|[<-|[<-|[]]]].
+  - exists (-1 # 2). split; [unfold noisy_like|unfold sexed_near]; repeat (constructor; [first [nz_bin|nz_sexbin]|]); constructor.
+  - exists 0. split; [unfold noisy_like|unfold sexed_near]; repeat (constructor; [first [nz_bin|nz_sexbin]|]); constructor.
+  - exists 1. split; [unfold noisy_like|unfold sexed_near]; repeat (constructor; [first [nz_bin|nz_sexbin]|]); constructor.
+Qed.
+
+(* the exact pooled reference: log2 per bin (relative to the ideal level: 0 on autosomes, x on X, -1 on Y) *)
+Definition sy_expected (x : Q) : list Q :=
+  [1 # 32; 0; -1 # 32; 1 # 32; 0; -1 # 32; x + (1 # 32); -1 + (1 # 32)].
+Definition sy_check (hapx : bool) : bool :=
+  match pool hapx None sy_sexes sy_files [] with
+  | ROk rows =>
+      let x := if hapx then -1 else 0 in
+      (* the values themselves *)
+      forallb (fun p => Qeq_bool (r_log2 (fst p)) (snd p)) (combine rows (sy_expected x))
+      (* within 2 eps = 1/8 of the ideal levels; spread^2 <= 3988 eps^2 *)
+      && forallb (fun p => Qle_bool (Qabs (r_log2 (fst p) - snd p)) (2 * nz_eps)
+                           && Qle_bool (r_spread_sq (fst p)) (spread_K * (nz_eps * nz_eps)))
+                 (combine rows [0; 0; 0; 0; 0; 0; x; -1])
+      (* six of the eight bins are noisy: spread^2 > 0 *)
+      && Nat.eqb (length (filter (fun r => negb (Qle_bool (r_spread_sq r) 0)) rows)) 6
+      && Nat.eqb (length rows) 8
+  | RErr _ => false
+  end.
+
+(* the constant cannot be below 400/361 = 1.108: the column -1 (flat), +1 (one sample) is within r = 1 of v = 0 *)
+Lemma spread_K_radius_lower :
+  Qred (consensus_log2 [-1; 1]) = 0 /\ Qred (consensus_spread_sq [-1; 1]) = 400 # 361.
+Proof. vm_compute. split; reflexivity. Qed.
